@@ -792,8 +792,12 @@ where
 
         // Memoised results may depend on the set of variables (e.g., the
         // Boolean-function view of ZBDDs), so the apply cache is invalidated
-        // like for a reordering.
-        self.data.pre_gc(self);
+        // like for a reordering (unless we are inside a `reorder()` closure,
+        // where this has been done already).
+        let prepared = self.reorder_gc_prepared;
+        if !prepared {
+            self.data.pre_gc(self);
+        }
         self.data.pre_reorder(self);
         MD::pre_reorder_mut(self);
 
@@ -808,8 +812,10 @@ where
 
         self.data.post_reorder(self);
         MD::post_reorder_mut(self);
-        // SAFETY: We called `pre_gc`, the variables are added.
-        unsafe { self.data.post_gc(self) };
+        if !prepared {
+            // SAFETY: We called `pre_gc`, the variables are added.
+            unsafe { self.data.post_gc(self) };
+        }
 
         range
     }
@@ -821,8 +827,12 @@ where
     ) -> Result<Range<VarNo>, DuplicateVarName> {
         // Memoised results may depend on the set of variables (e.g., the
         // Boolean-function view of ZBDDs), so the apply cache is invalidated
-        // like for a reordering.
-        self.data.pre_gc(self);
+        // like for a reordering (unless we are inside a `reorder()` closure,
+        // where this has been done already).
+        let prepared = self.reorder_gc_prepared;
+        if !prepared {
+            self.data.pre_gc(self);
+        }
         self.data.pre_reorder(self);
         MD::pre_reorder_mut(self);
 
@@ -843,8 +853,10 @@ where
 
             this.data.post_reorder(this);
             MD::post_reorder_mut(this);
-            // SAFETY: We called `pre_gc`, the variables are added.
-            unsafe { this.data.post_gc(this) };
+            if !prepared {
+                // SAFETY: We called `pre_gc`, the variables are added.
+                unsafe { this.data.post_gc(this) };
+            }
         });
 
         let mut names = names.into_iter();
@@ -870,8 +882,12 @@ where
 
         // Memoised results may depend on the set of variables (e.g., the
         // Boolean-function view of ZBDDs), so the apply cache is invalidated
-        // like for a reordering.
-        self.data.pre_gc(self);
+        // like for a reordering (unless we are inside a `reorder()` closure,
+        // where this has been done already).
+        let prepared = self.reorder_gc_prepared;
+        if !prepared {
+            self.data.pre_gc(self);
+        }
         self.data.pre_reorder(self);
         MD::pre_reorder_mut(self);
 
@@ -887,8 +903,10 @@ where
 
         self.data.post_reorder(self);
         MD::post_reorder_mut(self);
-        // SAFETY: We called `pre_gc`, the variables are added.
-        unsafe { self.data.post_gc(self) };
+        if !prepared {
+            // SAFETY: We called `pre_gc`, the variables are added.
+            unsafe { self.data.post_gc(self) };
+        }
 
         Ok(0..n)
     }
